@@ -13,7 +13,8 @@ from parso.file_io import FileIO
 from ..common import scratch_dir, crash_signature, digest, first_tree_diff, grammar, short
 from ..engine import Outcome, Prop
 
-FILES = ['a.py', 'b.py', 'sub/a.py']
+FILES = ['a.py', 'b.py', 'sub/a.py', 'l.py']     # l.py is a symbolic link to a.py
+LINKS = {'l.py': 'a.py'}
 VERS = ['3.8', '3.12', '3.6']
 DIRS = ['c1', 'c2']
 CONTENTS = ['x = 1\n', 'y = 2\n', 'def f():\n    return 1\n', 'x = (\n', '', 'class A:\n  pass\n', 'x = 1\ny = 2\n',
@@ -24,7 +25,7 @@ CONTENTS = ['x = 1\n', 'y = 2\n', 'def f():\n    return 1\n', 'x = (\n', '', 'cl
             'def g[T](x: T) -> T: return x\n']
 MODES = ['cache', 'cache', 'cache+diff', 'none', 'diff']
 
-_F = st.sampled_from([0, 0, 0, 1, 2])
+_F = st.sampled_from([0, 0, 0, 1, 2, 3, 3])
 _V = st.sampled_from([0, 0, 1, 2])
 _D = st.sampled_from([0, 0, 0, 1])
 _op = st.one_of(
@@ -48,6 +49,7 @@ class World:
         self.dirs = [os.path.join(self.root, d) for d in DIRS]
         self.files = [os.path.join(self.root, f) for f in FILES]
         os.mkdir(os.path.join(self.root, 'sub'))
+        self.alias = {os.path.join(self.root, l): os.path.join(self.root, t) for l, t in LINKS.items()}
         self.clock = int(time.time()) - 10 ** 6
         self.model = {}
         self.stamps = {}
@@ -58,16 +60,26 @@ class World:
         self.clock += 2
         return self.clock
 
+    def same_file(self, f):
+        """All paths of the world that name the file behind f."""
+        real = self.alias.get(f, f)
+        return [real] + [l for l, t in self.alias.items() if t == real]
+
     def write(self, f, content):
-        with open(f, 'w', newline='', encoding='utf-8') as fh:
+        real = self.alias.get(f, f)
+        with open(real, 'w', newline='', encoding='utf-8') as fh:
             fh.write(content)
         t = self.tick()
-        os.utime(f, (t, t))
-        self.model[f] = content
+        os.utime(real, (t, t))
+        for p in self.same_file(f):
+            self.model[p] = content
+            if not os.path.lexists(p):
+                os.symlink(os.path.basename(real), p)      # relative link, created once; its own mtime never changes
+                os.utime(p, (t, t), follow_symlinks=False)
 
     def touch(self, f):
         t = self.tick()
-        os.utime(f, (t, t))
+        os.utime(self.alias.get(f, f), (t, t))
 
     def restamp(self):
         """Pickles written during the last call get the next logical tick as mtime (single clock for all timestamps)."""
@@ -108,15 +120,17 @@ def run_history(ops, allow_inflight=True):
     dirty = set()
     try:
         for i, f in enumerate(w.files):
-            w.write(f, CONTENTS[i])
+            if f not in w.alias:
+                w.write(f, CONTENTS[i])
         for step, op in enumerate(ops):
             kind = op[0]
             info['steps'] += 1
             if kind == 'write':
                 f = w.files[op[1]]
                 w.write(f, CONTENTS[op[2]])
-                if f in cached:
-                    dirty.add(f)
+                for p in w.same_file(f):
+                    if p in cached:
+                        dirty.add(p)
             elif kind == 'touch':
                 w.touch(w.files[op[1]])
             elif kind == 'drop':
@@ -202,7 +216,7 @@ def run_history(ops, allow_inflight=True):
 
 class C16(Prop):
     id = 'C16'
-    rule = ('Generated (model-based histories, 3-16 operations): 3 files (two share a base name) x 3 grammar versions x 2 cache '
+    rule = ('Generated (model-based histories, 3-16 operations): 3 files (two share a base name) and a symbolic link to one of them x 3 grammar versions x 2 cache '
             'directories in a private temp root; operations {write file from a pool of 14 contents (mtime advances on an owned logical '
             'clock), touch, parse by path with cache / cache+diff_cache / no cache / diff_cache only, parse with a write in flight (FileIO '
             'subclass that overwrites the file right after parso read it), drop the in-memory cache (what a restart does), delete a cache '
